@@ -32,6 +32,7 @@ type harnessCtx struct {
 	subst    map[string]*Term  // result leaves pinned by a postcondition
 	havocVars map[string]string // fresh value of a havoc'd field -> memory name
 	pats     []string
+	borrowOK map[int]bool // apply: regions the contract declares it only borrows
 	strict   bool
 	name     string
 }
@@ -108,6 +109,64 @@ func (e *Engine) havocResults(st *State, sig *types.Signature, prefix string) []
 	return out
 }
 
+// externResults: the arbitrary results of an abstracted function outside the repository. When a
+// buffer is on loan (vBorrowed) the byte slices / strings it returns are taken to be nil, memory
+// it allocated, or (parts of) memory reachable from its own byte-slice / string arguments: it
+// cannot hand out a view of a buffer it was never given.
+func (e *Engine) externResults(st *State, callee *ssa.Function, args []Value, prefix string) []Value {
+	seq0 := e.allocSeq
+	out := e.havocResults(st, callee.Signature, prefix)
+	if len(e.borrowed) == 0 {
+		return out
+	}
+	var argRegions []*Term
+	ps := callee.Signature.Params()
+	off := 0
+	if callee.Signature.Recv() != nil {
+		off = 1
+	}
+	for i, a := range args {
+		var t types.Type
+		switch {
+		case off == 1 && i == 0:
+			t = callee.Signature.Recv().Type()
+		case i-off < ps.Len():
+			t = ps.At(i - off).Type()
+		default:
+			continue
+		}
+		fl, ok := e.tryFlat(a, t)
+		if !ok {
+			continue
+		}
+		for j, l := range leavesOf(t) {
+			if l.kind == LRegion && j < len(fl) {
+				argRegions = append(argRegions, fl[j])
+			}
+		}
+	}
+	res := callee.Signature.Results()
+	for i := 0; i < res.Len(); i++ {
+		t := res.At(i).Type()
+		fl, ok := e.tryFlat(out[i], t)
+		if !ok {
+			continue
+		}
+		for j, l := range leavesOf(t) {
+			if l.kind != LRegion || j >= len(fl) || !byteView(l.typ) {
+				continue
+			}
+			alts := []*Term{Eq(fl[j], BVConst(0, RegionSort)), BVUlt(BVConstU(0xF000000000000000+seq0, RegionSort), fl[j])}
+			for _, ar := range argRegions {
+				alts = append(alts, Eq(fl[j], ar))
+			}
+			st.assume(Or(alts...))
+		}
+	}
+	e.assumedExterns["results of abstracted external functions are nil, newly allocated, or memory reachable from their slice/string arguments (used for the vBorrowed checks)"] = true
+	return out
+}
+
 // finishCall executes a callee frame inline and merges its return points into st.
 func (e *Engine) finishCall(fr *Frame, st *State, nf *Frame, args []Value, site ssa.Instruction) []Value {
 	rets := e.execFunc(nf, args, st.clone())
@@ -176,7 +235,7 @@ var intrinsicNames = map[string]bool{
 	"vRequires": true, "vEnsures": true, "vAssert": true, "vAssume": true, "vForall": true, "vExists": true,
 	"vSameRegion": true, "vOffset": true, "vModifiesBytes": true, "vModifiesAll": true, "vFresh": true,
 	"vCanary": true, "vAllocs": true, "vUnreachable": true, "vModifiesObj": true, "vNoAlias": true, "vOpaque": true,
-	"vModifiesNothing": true, "vBorrowed": true, "vIsFreshRegion": true, "vModifiesHeap": true, "vStrictLen": true, "vAtEntry": true, "vKeptOrNew": true, "vWireCount": true, "vWireLast": true, "vModifiesWire": true, "vFuel": true, "vModifiesMems": true, "vReveal": true, "vModifiesField": true, "vMapAll": true, "vWireEach": true, "vSpawned": true, "vTrusted": true,
+	"vModifiesNothing": true, "vBorrowed": true, "vIsFreshRegion": true, "vModifiesHeap": true, "vStrictLen": true, "vAtEntry": true, "vKeptOrNew": true, "vWireCount": true, "vWireLast": true, "vModifiesWire": true, "vFuel": true, "vModifiesMems": true, "vReveal": true, "vModifiesField": true, "vMapAll": true, "vWireEach": true, "vSpawned": true, "vTrusted": true, "vModifiesElems": true,
 }
 
 // intrinsicName: the name of an intrinsic, with generic instantiations mapped to their origin.
@@ -266,11 +325,11 @@ func (e *Engine) callStatic(fr *Frame, st *State, callee *ssa.Function, args []V
 	}
 	if callee.Blocks == nil {
 		e.assumedExterns[callee.String()+" (no Go body: assumed total, no effects, arbitrary result)"] = true
-		return e.havocResults(st, callee.Signature, "ext."+callee.Name())
+		return e.externResults(st, callee, args, "ext."+callee.Name())
 	}
 	if pol := e.abstractPolicy(fr, callee); pol != "" {
 		e.assumedExterns[pol] = true
-		return e.havocResults(st, callee.Signature, "abs."+callee.Name())
+		return e.externResults(st, callee, args, "abs."+callee.Name())
 	}
 	nf := e.newFrame(callee, fr)
 	nf.prefix = fr.prefix
@@ -347,6 +406,43 @@ func (e *Engine) applyContract(fr *Frame, st *State, harness, target *ssa.Functi
 		wireBefore = e.ghostGet(st, "wire.count", IntSort)
 	}
 	vals := e.finishCall(fr, st, nf, args, site)
+	// a borrowed buffer handed to a callee whose contract does not say it only borrows it. A
+	// contract whose frame is byte ranges and the wire only (proved when the callee is verified)
+	// cannot store a slice header anywhere that outlives the call.
+	retains := false
+	for _, m := range hc.modifies {
+		switch m.kind {
+		case "obj", "heap", "mems", "all":
+			retains = true
+		}
+	}
+	if len(e.borrowed) > 0 && !fr.spec && retains {
+		for ai, a := range args {
+			if ai >= len(target.Params) {
+				break
+			}
+			pt := target.Params[ai].Type()
+			fl, ok := e.tryFlat(a, pt)
+			if !ok {
+				continue
+			}
+			for i, l := range leavesOf(pt) {
+				if l.kind != LRegion || i >= len(fl) || hc.borrowOK[fl[i].id] || !byteView(l.typ) {
+					continue
+				}
+				for _, b := range e.borrowed {
+					if EqOff(fl[i], b) == False || regionCannotBe(fl[i], b) {
+						continue
+					}
+					goal := Neq(fl[i], b)
+					if i+2 < len(fl) {
+						goal = Or(goal, Eq(fl[i+2], BVConst(0, IntSort)))
+					}
+					e.oblige(fr, st, "borrow-pass", site, goal, "a view of the borrowed buffer is passed to "+fnName(target)+", whose contract does not declare the parameter borrowed")
+				}
+			}
+		}
+	}
 	if wireBefore != nil {
 		for _, m := range hc.modifies {
 			if m.kind == "wire" || m.kind == "all" {
@@ -593,12 +689,12 @@ func (e *Engine) intrinsic(fr *Frame, st *State, callee *ssa.Function, args []Va
 		// disjoint: different region or non-overlapping [off, off+cap)
 		dis := Or(Neq(a[0], b[0]), BVSle(BVAdd(a[1], a[3]), b[1]), BVSle(BVAdd(b[1], b[3]), a[1]))
 		return []Value{scalar(dis)}
-	case "vModifiesBytes":
+	case "vModifiesBytes", "vModifiesElems":
 		if h == nil {
 			unsup("vModifiesBytes outside a harness")
 		}
 		s := args[0].T
-		sl := callee.Params[0].Type().Underlying().(*types.Slice)
+		sl := site.(ssa.CallInstruction).Common().Args[0].Type().Underlying().(*types.Slice)
 		h.modifies = append(h.modifies, modClause{kind: "bytes", elem: sl.Elem(), region: s[0], lo: s[1], hi: BVAdd(s[1], s[2])})
 		return nil
 	case "vModifiesObj", "vModifiesField":
@@ -611,9 +707,37 @@ func (e *Engine) intrinsic(fr *Frame, st *State, callee *ssa.Function, args []Va
 		}
 		a := iv.val.A
 		mc := modClause{kind: "obj", root: a.root, ref: a.ref}
+		// a pointer to a field of a larger object (&h.MACTable): only the leaves of that field
+		var sub []string
+		if !types.Identical(a.typ, a.root) {
+			rl := leavesOf(a.root)
+			n := nLeaves(a.typ)
+			for i := a.off; i < a.off+n && i < len(rl); i++ {
+				sub = append(sub, rl[i].path)
+			}
+			mc.fields = sub
+		}
 		if name == "vModifiesField" {
 			fs := e.stringSliceConsts(st, args[1])
-			mc.fields = fs
+			if sub != nil {
+				// field names relative to the sub-object: keep the sub-object's leaves they cover
+				var keep []string
+				pm := modClause{fields: fs}
+				prefix := ""
+				if len(sub) > 0 {
+					// common prefix of the sub-object's leaves up to the first differing component is not
+					// needed: match on the path suffix after the sub-object's own prefix
+					prefix = commonFieldPrefix(sub)
+				}
+				for _, lp := range sub {
+					if pm.coversLeaf(strings.TrimPrefix(lp, prefix)) {
+						keep = append(keep, lp)
+					}
+				}
+				mc.fields = keep
+			} else {
+				mc.fields = fs
+			}
 		}
 		h.modifies = append(h.modifies, mc)
 		return nil
@@ -662,6 +786,21 @@ func (e *Engine) intrinsic(fr *Frame, st *State, callee *ssa.Function, args []Va
 		}
 		if h != nil && h.mode == modeVerify {
 			e.wireEach = args[0].C
+		}
+		return nil
+	case "vBorrowed":
+		// the buffer is lent for the duration of the call: no view of it may be stored in memory
+		// that outlives the call (checked at every store of the code under verification); at a
+		// call site the declaration says that passing a borrowed buffer for this parameter is fine
+		if len(args[0].T) > 0 {
+			if h != nil && h.mode == modeVerify {
+				e.borrowed = append(e.borrowed, args[0].T[0])
+			} else if h != nil && h.mode == modeApply {
+				if h.borrowOK == nil {
+					h.borrowOK = map[int]bool{}
+				}
+				h.borrowOK[args[0].T[0].id] = true
+			}
 		}
 		return nil
 	case "vTrusted":
@@ -795,7 +934,7 @@ func (e *Engine) builtin(fr *Frame, st *State, b *ssa.Builtin, c *ssa.CallCommon
 		}
 		return []Value{scalar(n)}
 	case "append":
-		return []Value{e.appendOp(fr, st, c, args)}
+		return []Value{e.appendOp(fr, st, c, args, site)}
 	case "delete":
 		e.mapDelete(fr, st, c.Args[0].Type(), args[0].term(), args[1])
 		return nil
@@ -835,7 +974,7 @@ func (e *Engine) builtin(fr *Frame, st *State, b *ssa.Builtin, c *ssa.CallCommon
 	return nil
 }
 
-func (e *Engine) appendOp(fr *Frame, st *State, c *ssa.CallCommon, args []Value) Value {
+func (e *Engine) appendOp(fr *Frame, st *State, c *ssa.CallCommon, args []Value, site ssa.Instruction) Value {
 	s := args[0].T
 	sl := c.Args[0].Type().Underlying().(*types.Slice)
 	var src []*Term
@@ -857,6 +996,19 @@ func (e *Engine) appendOp(fr *Frame, st *State, c *ssa.CallCommon, args []Value)
 		return Value{T: s}
 	}
 	grow := Not(fits)
+	// appended elements that hold views of a borrowed buffer are retained with the slice
+	if len(e.borrowed) > 0 && !fr.spec && n.IsConst() && n.val.Int64() <= 4 {
+		if b, ok := sl.Elem().Underlying().(*types.Basic); !ok || b.Kind() != types.Uint8 {
+			els := leavesOf(sl.Elem())
+			for k := int64(0); k < n.val.Int64(); k++ {
+				var vals []*Term
+				for _, l := range els {
+					vals = append(vals, e.mem(st, elemMemName(sl.Elem(), l), elemKS, l.sort).Read([]*Term{src[0], BVAdd(src[1], BVConst(k, IntSort))}))
+				}
+				e.borrowCheck(fr, st, vals, sl.Elem(), site, "an appended slice element")
+			}
+		}
+	}
 	for _, l := range leavesOf(sl.Elem()) {
 		name := elemMemName(sl.Elem(), l)
 		m := e.mem(st, name, elemKS, l.sort)
@@ -1057,6 +1209,27 @@ func (e *Engine) stringConst(st *State, v Value) string {
 		return ""
 	}
 	return lit[o : o+n]
+}
+
+// commonFieldPrefix: the longest "a.b." prefix shared by all leaf paths.
+func commonFieldPrefix(paths []string) string {
+	if len(paths) == 0 {
+		return ""
+	}
+	p := paths[0]
+	for _, q := range paths[1:] {
+		for !strings.HasPrefix(q, p) {
+			i := strings.LastIndex(strings.TrimSuffix(p, "."), ".")
+			if i < 0 {
+				return ""
+			}
+			p = p[:i+1]
+		}
+	}
+	if i := strings.LastIndex(p, "."); i >= 0 {
+		return p[:i+1]
+	}
+	return ""
 }
 
 func (m *modClause) coversLeaf(path string) bool {
